@@ -66,9 +66,6 @@ def run(res, programs, tier):
             _r20_5(res, P, P.name)
     if not done:
         res.anchor("R20.1", "-", "facts of crate dashu_macros")
-    if tier == "thorough":
-        from . import witness
-        witness.run(res, "C20")
 
 
 def _macro_fns(P):
